@@ -280,7 +280,7 @@ def run(ctx):
         ctx.nontrivial((tuple(tr["chain"]), tuple(tr["pt"]), tr["below"]))
         for e in tr["ev"]:
             ctx.actions[e.get("fn", e["a"])] = ctx.actions.get(e.get("fn", e["a"]), 0) + 1
-    ctx.extra["binding_selftest"] = selftest(lib)
+    ctx.selftest(selftest, lib)
     ctx.rule = ("chains = every path of length 1, 2, 3 through the 67 conversion routines (TLC-enumerated); length-1 chains on "
                 "the %s lattice (11 degree x minute x second x 4 fraction classes x 2 signs) plus float predecessors of "
                 "degree/minute boundaries; longer chains on rotating lattice points and random reals in [-720, 720]; HP rejection "
